@@ -61,3 +61,72 @@ Theorem C20_build_status_lines :
 Proof. exact build_status_truthful. Qed.
 
 Check C20_status_truthful.
+
+
+(* ---- the status lines of a CONCURRENT build (Model/Fine.v): what a line says is tied to the steps the
+   rule's thread actually made in the run `ch`: "built" iff its command's script was appended to the executed
+   commands by its last step, "recovered" for target i iff a cache -> target rename step succeeded for i,
+   "up to date" iff the look at target i found the remembered hash. *)
+From Ruler Require Import Inv Ideal BuildSpec InvFacts C01Hist C01Facts C11Facts C02Sym Sched Fine FineFacts FineCorStep FineCor FineStatus FineCorFinal FineCorExamples.
+Local Open Scope nat_scope.
+
+Theorem C20_status_truthful_in_every_interleaving : forall (w1 : world sym) (tbl : table sym) pack hists blobs t' ch k r wr,
+  take_blobs sym SContent tbl (worker_paths pack) = (blobs, t') ->
+  let st0 := fn_start_sym w1 t' pack in
+  length (p_leaves pack) <= k ->
+  nth k (fn_res (frun_sym pack blobs hists ch st0)) None = Some (r, TOk wr) ->
+  exists n, nth_error (p_nodes pack) (k - length (p_leaves pack)) = Some n /\ r = Some (n_rule n) /\
+    map snd (status_lines sym wr) = n_targets n /\
+    ((wr_option wr = CommandExecuted /\
+      status_lines sym wr = map (fun t => (BBuilt, t)) (n_targets n) /\
+      script_lines (n_command n) <> [] /\
+      exists pre post s' ro,
+        ch = pre ++ k :: post /\ fstep_sym pack blobs hists (frun_sym pack blobs hists pre st0) k = Some s' /\
+        phase_of sym (frun_sym pack blobs hists pre st0) k = WFinish ro /\
+        fn_commands s' = fn_commands (frun_sym pack blobs hists pre st0) ++ script_lines (n_command n))
+     \/
+     (exists ress,
+        wr_option wr = Resolutions ress /\ length ress = length (n_targets n) /\ ~ In NeedsRebuild ress /\
+        status_lines sym wr = map (fun pr => (banner_of (snd pr), fst pr)) (combine (n_targets n) ress) /\
+        (forall pre post s', ch = pre ++ k :: post ->
+           fstep_sym pack blobs hists (frun_sym pack blobs hists pre st0) k = Some s' ->
+           fn_commands s' = fn_commands (frun_sym pack blobs hists pre st0)) /\
+        forall i,
+          (nth_error ress i = Some Recovered <->
+           exists pre post s' done,
+             ch = pre ++ k :: post /\ fstep_sym pack blobs hists (frun_sym pack blobs hists pre st0) k = Some s' /\
+             phase_of sym (frun_sym pack blobs hists pre st0) k = WRename done i /\
+             phase_of sym s' k = WResolve (done ++ [Recovered]) (S i)) /\
+          (nth_error ress i = Some AlreadyCorrect <->
+           exists pre post s' done,
+             ch = pre ++ k :: post /\ fstep_sym pack blobs hists (frun_sym pack blobs hists pre st0) k = Some s' /\
+             phase_of sym (frun_sym pack blobs hists pre st0) k = WResolve done i /\
+             phase_of sym s' k = WResolve (done ++ [AlreadyCorrect]) (S i)))).
+Proof. exact fine_status_truthful_sym. Qed.
+Print Assumptions C20_status_truthful_in_every_interleaving.
+
+Theorem C20_status_shape_in_every_interleaving : forall (w1 : world sym) (tbl : table sym) pack hists blobs t' ch k r wr,
+  take_blobs sym SContent tbl (worker_paths pack) = (blobs, t') ->
+  let st0 := fn_start_sym w1 t' pack in
+  length (p_leaves pack) <= k ->
+  nth k (fn_res (frun_sym pack blobs hists ch st0)) None = Some (r, TOk wr) ->
+  exists n, nth_error (p_nodes pack) (k - length (p_leaves pack)) = Some n /\
+    map snd (status_lines sym wr) = n_targets n /\
+    ((exists pre post s',
+        ch = pre ++ k :: post /\ fstep_sym pack blobs hists (frun_sym pack blobs hists pre st0) k = Some s' /\
+        script_lines (n_command n) <> [] /\
+        fn_commands s' = fn_commands (frun_sym pack blobs hists pre st0) ++ script_lines (n_command n))
+     <-> wr_option wr = CommandExecuted) /\
+    (wr_option wr = CommandExecuted -> Forall (fun l => fst l = BBuilt) (status_lines sym wr)) /\
+    (wr_option wr <> CommandExecuted -> Forall (fun l => fst l <> BBuilt) (status_lines sym wr)).
+Proof. exact fine_status_shape_sym. Qed.
+Print Assumptions C20_status_shape_in_every_interleaving.
+
+Theorem C20_status_lines_of_a_concurrent_build : forall ch (w : world sym) rp goal w1 tbl pack hists blobs t',
+  init_dir sym w = Ok (w1, tbl) -> get_nodes sym w1 rp goal = Ok pack ->
+  read_histories sym sym_eqb SRule w1 (p_nodes pack) = Some hists ->
+  take_blobs sym SContent tbl (worker_paths pack) = (blobs, t') ->
+  o_status (build_fine_sym ch w rp goal) =
+  flat_map (res_lines sym) (fn_res (frun_sym pack blobs hists ch (fn_start_sym w1 t' pack))).
+Proof. exact fine_build_status_lines_sym. Qed.
+Print Assumptions C20_status_lines_of_a_concurrent_build.
